@@ -9,6 +9,30 @@ package mkvs
 //@   ensures fresh(result)
 //@   note an overlay is a new tree object layered over inner; nothing is written to inner until Commit
 
+//@ import "context"
+
+//@ func NewWithRoot
+//@   trusted
+//@   modifies nothing
+//@   ensures fresh(result) && result != nil
+//@   note constructs a new tree object over the node database at the given root; nothing is read or written until the tree is used
+
+//@ func New
+//@   trusted
+//@   modifies nothing
+//@   ensures fresh(result) && result != nil
+
+//@ func OverlayTree.Copy
+//@   iface (self OverlayTree, inner KeyValueTree) (result OverlayTree)
+//@   modifies nothing
+//@   ensures fresh(result)
+//@   note an isolated copy: a new tree object; the original overlay and both inner trees are not written
+
+//@ func OverlayTree.Commit
+//@   iface (self OverlayTree, ctx context.Context) (result KeyValueTree, err error)
+//@   modifies kvState()
+//@   note flushes the overlay's pending writes into its inner tree (consensus-state ghost trees only; no Go object reachable from the caller is written)
+
 // ---- commit (C13): a root is persisted only if it is the one the caller was told to reach ----
 
 //@ func tree.commitWithHooks
@@ -20,6 +44,10 @@ package mkvs
 //@   ensures err != nil ==> db.GBatchCommitsOK == old(db.GBatchCommitsOK)
 //@   loop 1 invariant db.GBatchCommits == old(db.GBatchCommits) && db.GBatchCommitsOK == old(db.GBatchCommitsOK)
 //@   loop 2 invariant db.GBatchCommits == old(db.GBatchCommits) && db.GBatchCommitsOK == old(db.GBatchCommitsOK)
+//@   loop 2 invariant len(log) == len(logAnns)
+//@   loop 2 invariant forall k string :: visited(k) && t.pendingWriteLog[k] != nil && (t.pendingWriteLog[k].value != nil || t.pendingWriteLog[k].existed) ==> (exists j int :: 0 <= j && j < len(log) && bytesId(log[j].Key) == bytesId(t.pendingWriteLog[k].key) && (log[j].Value == nil) == (t.pendingWriteLog[k].value == nil))
+//@   precall db/api\.Batch\)\.PutWriteLog$ :: len(log) == len(logAnns) && (forall k string :: inDom(t.pendingWriteLog, k) && t.pendingWriteLog[k] != nil && (t.pendingWriteLog[k].value != nil || t.pendingWriteLog[k].existed) ==> (exists j int :: 0 <= j && j < len(log) && bytesId(log[j].Key) == bytesId(t.pendingWriteLog[k].key) && (log[j].Value == nil) == (t.pendingWriteLog[k].value == nil)))
+//@   note write log handed to the database: every pending entry that ends with a value, or ends removed but existed before, has a log entry with its key (a deletion iff it ends removed); only entries that never existed and end removed are dropped
 //@   note the batch holding the new nodes, the write log and the root is committed at most once, with the hash doCommit computed, and only after the caller's pre-commit hook accepted that hash; on every error return no batch commit succeeded
 
 //@ func tree.CommitKnown
@@ -35,14 +63,14 @@ package mkvs
 //@ func tree.Insert
 //@   props C13
 //@   requires t != nil && t.cache != nil
-//@   precall mkvs\.cache\)\.setPendingRoot$ :: t.withoutWriteLog || (t.pendingWriteLog[ufr[string]("toMapKey", key)] != nil && t.pendingWriteLog[ufr[string]("toMapKey", key)].insertedLeaf == result.insertedLeaf && bytesId(t.pendingWriteLog[ufr[string]("toMapKey", key)].value) == bytesId(value))
+//@   precall mkvs\.cache\)\.setPendingRoot$ :: t.withoutWriteLog || (t.pendingWriteLog[ufr[string]("toMapKey", key)] != nil && t.pendingWriteLog[ufr[string]("toMapKey", key)].insertedLeaf == result.insertedLeaf && bytesId(t.pendingWriteLog[ufr[string]("toMapKey", key)].value) == bytesId(value) && (defined(entry) && entry == nil ==> t.pendingWriteLog[ufr[string]("toMapKey", key)].existed == result.existed))
 //@   note the stored write log and its annotations are built from these entries at commit: a stale leaf (e.g. nil after remove + re-insert in one batch) would make the database serve a log that does not reproduce the new root
 
 //@ func tree.RemoveExisting
 //@   props C13
 //@   requires t != nil && t.cache != nil
-//@   precall mkvs\.cache\)\.setPendingRoot$ :: t.withoutWriteLog || (entry != nil && entry.value == nil && entry.insertedLeaf == nil) || (entry == nil && t.pendingWriteLog[ufr[string]("toMapKey", key)] != nil && t.pendingWriteLog[ufr[string]("toMapKey", key)].insertedLeaf == nil && t.pendingWriteLog[ufr[string]("toMapKey", key)].value == nil)
-//@   note after a removal the entry recorded for the key has no value and no inserted leaf: the stored log will contain a deletion (or nothing, if the key did not exist before)
+//@   precall mkvs\.cache\)\.setPendingRoot$ :: t.withoutWriteLog || (entry != nil && entry.value == nil && entry.insertedLeaf == nil) || (entry == nil && t.pendingWriteLog[ufr[string]("toMapKey", key)] != nil && t.pendingWriteLog[ufr[string]("toMapKey", key)].insertedLeaf == nil && t.pendingWriteLog[ufr[string]("toMapKey", key)].value == nil && t.pendingWriteLog[ufr[string]("toMapKey", key)].existed == changed)
+//@   note after a removal the entry recorded for the key has no value and no inserted leaf, and a NEW entry records "existed before" exactly as the tree reported it (doRemove's changed flag - also for a key stored with an empty value): the stored log will contain a deletion, or nothing only if the key did not exist before
 
 // ---- overlay (C03) ----
 
